@@ -160,6 +160,55 @@ def _judge(ix: IX.Index, select, where, order, group, text_out: str, count_of=No
     return probs
 
 
+# ---- a note line copied to another page: two notes share a ZID ------------------------------
+DUP_FILES = {
+    "a.zo": "# A #pa\n\n- 240101#A1 early on a #t1\n- 240105#DD shared zid, the copy on a @ca #t1\n- 240107#A3 late on a #t1\n",
+    "b.zo": "# B #pb\n\n- 240102#B1 early on b #t1\n- 240105#DD shared zid, the copy on b @cb #t1\n",
+    "c.zo": "# C\n\no 240103#C1 a todo elsewhere #t1\n- 240106#C2 holds no shared zid\n",
+}
+DUP_QUERIES = [
+    (None, None, ["none"]), (None, ["none"], ["none"]), (None, ["alpha"], ["none"]), (None, None, ["file"]),
+    ([[["kind", "-"]]], ["none"], ["none"]), ([[["kind", "-"]]], None, ["file"]), ([[["kind", "-"]]], ["alpha"], ["file"]),
+    ([[["tag", "#", "t1", False]]], ["none"], ["file"]), ([[["tag", "#", "t1", False]]], ["create"], ["none"]),
+    ([[["kind", "-"]]], ["none"], ["#"]), ([[["tag", "@", "cb", False]]], None, ["file"]),
+    ([[["tag", "@", "ca", False]], [["tag", "@", "cb", False]]], None, ["file"]),
+]
+
+
+def _run_dup_case(ctx, case) -> F.Outcome:
+    """Every matching note exactly once, under its own headers: notes are told apart by their text."""
+    _, where, order, group = case
+    ix = _IX.get("DUP")
+    if ix is None:
+        ix = _IX["DUP"] = IX.Index(DUP_FILES, DAY, tag="c09d", allow_shared_zids=True)
+    H.freeze(DAY)
+    out = F.Outcome()
+    qtext = Q.render_query(["note"], where, order, group)
+    ok, why = qwf.wellformed(qtext)
+    if not ok:
+        out.ok, out.sig, out.detail = False, "generated-query-rejected-by-grammar", {"query": qtext, "why": why}
+        return out
+    res, err = ix.execute(qtext)
+    out.obs = H.digest(res if err is None else err)
+    out.nontrivial = H.digest(["DUP", qtext])
+    if err is not None:
+        out.ok, out.sig, out.detail = False, "execute-raised:" + err.split(":")[0], {"index": "DUP", "query": qtext, "error": err}
+        return out
+    U = ix.universe
+    dims = [g for g in (group or []) if g != "none"]
+    matching = [n for n in U.notes if where is None or Q.holds_or(where, n, U, DAY)]
+    groups, problems = OM.parse_output(res, len(dims), True)
+    want = sorted([list(OM.expected_label(n, d) for d in dims), OM.expected_text(n)] for n in matching)
+    got = sorted([list(c), e] for c, entries in groups for e in entries)
+    if problems:
+        out.ok, out.sig = False, "output-structure"
+        out.detail = {"index": "DUP", "query": qtext, "problem": problems, "output": res[:2000]}
+    elif got != want:
+        out.ok, out.sig = False, "shared-zid:selected-notes-not-each-exactly-once-under-their-own-headers"
+        out.detail = {"index": "DUP", "files": DUP_FILES, "query": qtext, "expected": want, "observed": got, "output": res[:2000]}
+    return out
+
+
 def _k(n, key):
     key = key.split(":")[0]
     return {"none": (n["page"], n["line"]), "alpha": OM.expected_text(n), "create": n["create"],
@@ -167,6 +216,8 @@ def _k(n, key):
 
 
 def _run_case(ctx, case) -> F.Outcome:
+    if case[0] == "DUP":
+        return _run_dup_case(ctx, case)
     name, select, wi, order, group = case
     ix = _index(name)
     H.freeze(DAY)
@@ -233,10 +284,14 @@ def _cases(ctx):
                         cases.append([name, sel, wi, o, g])
                         if sel[0] != "note" or o is None or o == ["none"]:
                             cases.append([name, ["count", sel], wi, o, g])
+    for w, o, g in DUP_QUERIES:
+        cases.append(["DUP", w, o, g])
     return cases
 
 
 def _sample(case):
+    if case[0] == "DUP":
+        return {"index": "DUP (two notes share a ZID)", "query": Q.render_query(["note"], case[1], case[2], case[3])}
     name, select, wi, order, group = case
     return {"index": name, "query": Q.render_query(select, WHERES[name][wi], order, group)}
 
@@ -246,6 +301,7 @@ def run(ctx: F.Ctx):
     cases = _cases(ctx)
     for n in ("K1", "K4"):
         _index(n)
+    _IX["DUP"] = IX.Index(DUP_FILES, DAY, tag="c09d", allow_shared_zids=True)
     try:
         rep = F.explore(ctx, cases, lambda c: _run_case(ctx, c), sample=_sample, day=DAY, twice_every=499)
     finally:
@@ -262,7 +318,9 @@ def run(ctx: F.Ctx):
             "and one quadruple); ordering: default, each of 6 keys, ordered pairs of distinct keys "
             "(quick: a third of them, chosen by seed) for note selections, {default, alpha, none, "
             "create alpha} for value selections; 3 filters per index (no WHERE, a mid-selectivity "
-            "filter, a filter selecting nothing). Laws in the module docstring. Non-trivial = the "
+            "filter, a filter selecting nothing); plus a three-page index in which a note line was copied to another page "
+            "(two notes share a ZID, each page also holds an earlier ZID) under 12 note queries, where every matching note "
+            "must be listed exactly once under its own headers (notes told apart by their text). Laws in the module docstring. Non-trivial = the "
             "filter selects something."
         ),
         "bounds": {"cases": len(cases), "frozen_day": DAY.isoformat()},
